@@ -155,33 +155,50 @@ pub fn build_map_any(m: &Model) -> AdjacencyMap {
     d
 }
 
-pub fn build_w_usize(m: &Model) -> AdjacencyListWeighted<usize> {
+/// Build a weighted digraph from (arc, weight) pairs by a route that depends
+/// on the model: ascending `add_arc_weighted`; a scrambled order in which some
+/// arcs are first added with another weight and then re-added (re-adding
+/// replaces the weight); or `From<iterator of weight maps>`.
+fn build_weighted<W: Copy>(m: &Model, conv: impl Fn(i64) -> W, other: W) -> AdjacencyListWeighted<W> {
+    use graaf::{AddArcWeighted, Empty};
     assert!(m.is_contig() && m.n() > 0);
-    let mut d = AdjacencyListWeighted::<usize>::empty(m.n());
-    for (&(u, v), &w) in &m.arcs {
-        d.add_arc_weighted(u, v, usize::try_from(w).expect("harness: negative usize weight"));
+    match (m.size() + 3 * m.n()) % 5 {
+        3 => {
+            let rows: Vec<BTreeMap<usize, W>> = (0..m.n()).map(|u| m.out_w(u).into_iter().map(|(v, w)| (v, conv(w))).collect()).collect();
+            AdjacencyListWeighted::from(rows)
+        }
+        4 => {
+            let mut d = AdjacencyListWeighted::<W>::empty(m.n());
+            for (i, (u, v)) in arcs_in_some_order(m).into_iter().enumerate() {
+                if i % 3 == 0 {
+                    d.add_arc_weighted(u, v, other);
+                }
+                d.add_arc_weighted(u, v, conv(m.arcs[&(u, v)]));
+            }
+            d
+        }
+        _ => {
+            let mut d = AdjacencyListWeighted::<W>::empty(m.n());
+            for (&(u, v), &w) in &m.arcs {
+                d.add_arc_weighted(u, v, conv(w));
+            }
+            d
+        }
     }
-    d
+}
+
+pub fn build_w_usize(m: &Model) -> AdjacencyListWeighted<usize> {
+    build_weighted(m, |w| usize::try_from(w).expect("harness: negative usize weight"), 7)
 }
 
 /// Like `build_w_usize`, every weight multiplied by `k` (the caller makes sure
 /// that every path sum still fits).
 pub fn build_w_usize_scaled(m: &Model, k: usize) -> AdjacencyListWeighted<usize> {
-    assert!(m.is_contig() && m.n() > 0);
-    let mut d = AdjacencyListWeighted::<usize>::empty(m.n());
-    for (&(u, v), &w) in &m.arcs {
-        d.add_arc_weighted(u, v, usize::try_from(w).expect("harness: negative usize weight").checked_mul(k).expect("harness: scale overflow"));
-    }
-    d
+    build_weighted(m, |w| usize::try_from(w).expect("harness: negative usize weight").checked_mul(k).expect("harness: scale overflow"), 7)
 }
 
 pub fn build_w_isize_scaled(m: &Model, k: isize) -> AdjacencyListWeighted<isize> {
-    assert!(m.is_contig() && m.n() > 0);
-    let mut d = AdjacencyListWeighted::<isize>::empty(m.n());
-    for (&(u, v), &w) in &m.arcs {
-        d.add_arc_weighted(u, v, (w as isize).checked_mul(k).expect("harness: scale overflow"));
-    }
-    d
+    build_weighted(m, |w| (w as isize).checked_mul(k).expect("harness: scale overflow"), -7)
 }
 
 /// A scale factor for non-negative weights such that the sum of ALL arc
@@ -218,12 +235,7 @@ pub fn isize_scale(r: &mut crate::rng::Rng, m: &Model) -> isize {
 }
 
 pub fn build_w_isize(m: &Model) -> AdjacencyListWeighted<isize> {
-    assert!(m.is_contig() && m.n() > 0);
-    let mut d = AdjacencyListWeighted::<isize>::empty(m.n());
-    for (&(u, v), &w) in &m.arcs {
-        d.add_arc_weighted(u, v, w as isize);
-    }
-    d
+    build_weighted(m, |w| w as isize, -7)
 }
 
 pub fn build_w_isize_alt(m: &Model) -> AdjacencyListWeighted<isize> {
